@@ -173,10 +173,14 @@ theorem refs_inv (s : State) (r arg filter cache page : String) (h : Inv s) : In
   unfold refs
   simp only []
   have h1 := setRepo_inv s _ h (repo_ok s r h)
-  repeat' split
-  all_goals first
-    | exact h1
-    | exact rcache_only _ _ h1
+  split
+  · exact h1
+  · unfold refsMain
+    simp only []
+    repeat' split
+    all_goals first
+      | exact h1
+      | exact rcache_only _ _ h1
 
 /-- the dispatch of `ServeHTTP` (switches, read-only, name checks) keeps the invariant -/
 theorem step_inv (s : State) (q : Req) (h : Inv s) : Inv (Upd.step s q).1 := by
